@@ -38,8 +38,8 @@ CHECKS = {
     "C08": dict(
         text="Partial: for derive-generated sync blocks chunk-independence holds by construction, checked on the generated MIR "
              "of every in-crate user and a generated family (lock-step iteration from 0, take(n), one process call per sample, "
-             "no state written by work()). For hand-written blocks only the bounded-copy rule. Carried-state arithmetic of "
-             "hand-written blocks is not decided.",
+             "no state written by work()). For hand-written blocks the bounded-copy rule and rate consistency (consume(a) with "
+             "produce(a/c) needs a multiple of c). Other carried-state arithmetic of hand-written blocks is not decided.",
         design="§4 C08", technique="structural rules on macro-generated MIR over a generated program family"),
     "C12": dict(
         text="Partial: the stream stores only tags of committed samples and consume(0) removes none (central contract), and on "
